@@ -134,13 +134,6 @@ def payloadNonFlexible (mtu : Nat) (pid : Nat) (payload : Bytes) : List Bytes :=
   | none => []
   | some h => (fragLoop mtu h pid payload.length true payload).getD []
 
-/-- the `for i, payload := range payloads` loop of `Encode` -/
-def emit (c : EncCfg) : UInt16 → List Bytes → List Pkt
-  | _, [] => []
-  | sq, [pl] => [{ pt := c.pt, seq := sq, ssrc := c.ssrc, marker := true, payload := pl }]
-  | sq, pl :: rest =>
-    { pt := c.pt, seq := sq, ssrc := c.ssrc, marker := false, payload := pl } :: emit c (sq + 1) rest
-
 /-- `Encoder.Encode` (never panics: the non-flexible payloader returns an empty, non-nil list on
 failure, and `Encode` then returns no packets and no error). -/
 def encode (e : Enc) (frame : Bytes) : Enc × List Pkt :=
